@@ -70,9 +70,17 @@ Definition run_check (c : args * list (list Q) * list N * (list (list bool * Q) 
 """
 
 
+_SIMS = {}
+
+
 def get_sim(cls, gates, parallel=False):
+    """one simulator object per (class, gate set, mode) for the whole process: validation, layout and marginalisation of a run
+    depend on that run's arguments only, whatever circuits the object has processed before (all circuits share one name)"""
     from quantum_gates._simulation.simulator import MrAndersonSimulator
-    return MrAndersonSimulator(gates=gates, CircuitClass=cls, parallel=parallel)
+    key = (cls, id(gates), parallel)
+    if key not in _SIMS:
+        _SIMS[key] = (MrAndersonSimulator(gates=gates, CircuitClass=cls, parallel=parallel), gates)   # keep gates alive: id() stays unique
+    return _SIMS[key][0]
 
 
 def run_impl(sim, kw, npseed=None):
